@@ -25,6 +25,7 @@ import (
 	"os"
 	"sort"
 	"strings"
+	"time"
 
 	"verifmc/core"
 	"verifmc/node"
@@ -145,7 +146,7 @@ func init() {
 	def("kXV500", "contract-flow-to-voter", "X", "V", flow(kX, kV, 500))
 }
 
-// bounds
+// bounds of one scenario (the first element of every history names the scenario)
 type bounds struct {
 	alpha       []string
 	maxPerBlock int
@@ -153,15 +154,22 @@ type bounds struct {
 	maxTxs      int // cap on the total number of transactions of a history
 }
 
-var quickB = bounds{
-	alpha:       []string{"tVX500", "tXV500", "tVX150", "vVC1", "vVC2", "vWC1", "vVD0", "rC2+150", "uC1+50", "xC1", "kXV500"},
-	maxPerBlock: 2, maxBlocks: 2, maxTxs: 4,
+var base = []string{"tVX500", "tXV500", "tVX150", "vVC1", "vVC2", "vWC1", "vVD0", "rC2+150", "uC1+50", "xC1", "kXV500"}
+
+var scenarios = map[string]bounds{
+	// quick tier: every block of <= 2 txs, every history of <= 2 such blocks
+	"quick": {alpha: base, maxPerBlock: 2, maxBlocks: 2, maxTxs: 4},
+	// thorough tier, deep: the same alphabet, blocks of <= 3 txs, <= 3 blocks, <= 4 txs in total
+	"deep": {alpha: base, maxPerBlock: 3, maxBlocks: 3, maxTxs: 4},
+	// thorough tier, wide: the whole alphabet, blocks of <= 3 txs, <= 3 blocks, <= 3 txs in total
+	"wide": {alpha: append(append([]string{}, base...), "tXV150", "rC2", "uC1+100", "vC1C2", "vC2C1", "vC1C1", "kVX500"), maxPerBlock: 3, maxBlocks: 3, maxTxs: 3},
 }
 
-var thoroughB = bounds{
-	alpha: []string{"tVX500", "tXV500", "tVX150", "tXV150", "vVC1", "vVC2", "vWC1", "vVD0", "rC2", "rC2+150", "uC1+50", "uC1+100", "xC1",
-		"vC1C2", "kVX500", "kXV500"},
-	maxPerBlock: 3, maxBlocks: 3, maxTxs: 4,
+func tierScenarios() []string {
+	if core.Thorough() {
+		return []string{"deep", "wide"}
+	}
+	return []string{"quick"}
 }
 
 var B bounds
@@ -473,6 +481,10 @@ func fmtMismatches(mm []mismatch) string {
 
 var verbose bool
 
+// lenient: the history does not come from the BFS frontier (replay / shrinking), so a block in the
+// middle may fail or lose a transaction; the run then ends there
+var lenient bool
+
 func txsUsed(hist []string) int {
 	n := 0
 	for _, ev := range hist {
@@ -481,12 +493,20 @@ func txsUsed(hist []string) int {
 	return n
 }
 
-func run(hist []string) core.Outcome {
+func run(full []string) core.Outcome {
+	if len(full) == 0 {
+		return core.Outcome{Key: "root", Enabled: tierScenarios()}
+	}
+	var ok bool
+	if B, ok = scenarios[full[0]]; !ok {
+		panic("harness: unknown scenario " + full[0])
+	}
+	hist := full[1:]
 	w := newWorld()
 	defer w.close()
 	var o core.Outcome
 	viol := func(fp, what string) {
-		o.Violations = append(o.Violations, core.Violation{Fingerprint: prop + "/" + fp, What: what + fmt.Sprintf("; history (blocks after the funding block) %v", hist), Replay: map[string]interface{}{"history": hist}})
+		o.Violations = append(o.Violations, core.Violation{Fingerprint: prop + "/" + fp, What: what + fmt.Sprintf("; history (scenario, then the blocks after the funding block) %v", full), Replay: map[string]interface{}{"history": full}})
 	}
 	res := w.deliver(prefixTxs(), "prefix")
 	if res.status != "accepted" {
@@ -521,7 +541,7 @@ func run(hist []string) core.Outcome {
 		case "discarded":
 			// the assembler refused a transaction (e.g. vote for a non-candidate): the block that was
 			// produced is a shorter list, explored under its own name
-			if !last {
+			if !last && !lenient {
 				return core.Outcome{Nondet: fmt.Sprintf("block %d %q had a tx discarded although its parent state was expanded", i, ev)}
 			}
 			o.Tags = append(o.Tags, "discarded/"+kinds(names))
@@ -557,10 +577,10 @@ func run(hist []string) core.Outcome {
 			fmt.Printf("%s", dump(st))
 		}
 		if mm := tally(st); len(mm) > 0 {
-			if !last {
+			if !last && !lenient {
 				return core.Outcome{Nondet: fmt.Sprintf("block %d %q violates although its state was expanded", i, ev)}
 			}
-			viol(classify(hist, mm), fmt.Sprintf("after block %d %q: %s", i+1, ev, fmtMismatches(mm)))
+			viol(classify(hist[:i+1], mm), fmt.Sprintf("after block %d %q: %s", i+1, ev, fmtMismatches(mm)))
 			o.Tags = append(o.Tags, "mismatch/"+kinds(names))
 			return o
 		}
@@ -570,7 +590,7 @@ func run(hist []string) core.Outcome {
 		}
 	}
 	used := txsUsed(hist)
-	o.Key = core.Hash(fmt.Sprintf("used=%d|%s", used, stateKey(st)))
+	o.Key = core.Hash(fmt.Sprintf("%s|used=%d|%s", full[0], used, stateKey(st)))
 	if len(hist) < B.maxBlocks {
 		n := B.maxPerBlock
 		if B.maxTxs-used < n {
@@ -751,11 +771,12 @@ func shrinkViolation(safe core.RunFunc, v core.Violation) core.Violation {
 	}
 	fam := family(v.Fingerprint)
 	var lastHit core.Violation
+	var scen string
 	fails := func(flat []string) bool {
 		if len(flat) == 0 {
 			return false
 		}
-		o := safe(unflatten(flat))
+		o := safe(append([]string{scen}, unflatten(flat)...))
 		for _, x := range o.Violations {
 			if family(x.Fingerprint) == fam {
 				lastHit = x
@@ -764,6 +785,13 @@ func shrinkViolation(safe core.RunFunc, v core.Violation) core.Violation {
 		}
 		return false
 	}
+	scen = hist[0]
+	hist = hist[1:]
+	if len(hist) == 0 {
+		return v
+	}
+	lenient = true
+	defer func() { lenient = false }()
 	min := core.Shrink(flatten(hist), 0, nil, fails)
 	if !fails(min) {
 		return v
@@ -785,10 +813,6 @@ func shrinkViolation(safe core.RunFunc, v core.Violation) core.Violation {
 func main() {
 	core.ParseFlags()
 	node.Quiet()
-	B = quickB
-	if core.Thorough() {
-		B = thoroughB
-	}
 	safe := core.SafeRun(prop, run)
 	if core.Opt.Replay != "" {
 		var rp struct {
@@ -799,6 +823,7 @@ func main() {
 			os.Exit(2)
 		}
 		verbose = true
+		lenient = true
 		o := safe(rp.History)
 		fmt.Printf("replay %v\n", rp.History)
 		for _, v := range o.Violations {
@@ -811,14 +836,33 @@ func main() {
 	}
 	core.ServeIfWorker(safe)
 	r := core.NewResult(prop, "model_checking")
-	r.Rule = fmt.Sprintf("BFS over histories of blocks on a single-deputy chain; a block is any ordered list of 1..%d transactions from the alphabet %v (built by the real assembler on the head of the node under test, validated by the node's InsertBlock); at most %d blocks and %d transactions per history after a funding+register(C1) prefix block; state = (transactions used, balance/votes/voteFor/candidate profile of every account ever touched); a block with a transaction the assembler discards is not expanded (it equals a shorter list); a state that violates is not expanded; distinct outcome = (verdict, tx kinds of the last block, which tallies moved)", B.maxPerBlock, B.alpha, B.maxBlocks, B.maxTxs)
+	maxBlocks := 0
+	bnd := map[string]interface{}{}
+	var desc []string
+	for _, name := range tierScenarios() {
+		B = scenarios[name]
+		if B.maxBlocks > maxBlocks {
+			maxBlocks = B.maxBlocks
+		}
+		bnd[name] = map[string]interface{}{"alphabet": B.alpha, "max_txs_per_block": B.maxPerBlock, "max_blocks": B.maxBlocks, "max_txs_per_history": B.maxTxs, "blocks_in_menu": len(blocksUpTo(B.maxPerBlock))}
+		desc = append(desc, fmt.Sprintf("%s: alphabet %v, <= %d txs per block, <= %d blocks and <= %d txs per history", name, B.alpha, B.maxPerBlock, B.maxBlocks, B.maxTxs))
+	}
+	r.Rule = "BFS over histories of blocks on a single-deputy chain; a block is any ordered list of transactions from the scenario's alphabet, built by the real assembler on the head of the node under test and validated by the node's InsertBlock, after a funding+register(C1) prefix block; scenarios: " + strings.Join(desc, " | ") + "; state = (scenario, transactions used, balance/votes/voteFor/candidate profile of every account ever touched); a block with a transaction the assembler discards is not expanded (it equals a shorter list); a state that violates is not expanded; distinct outcome = (verdict, tx kinds of the last block, which tallies moved)"
 	r.Assume = []string{
 		"heights stay far below params.TermDuration/InterimDuration: unregistering refunds at once (no interim/reward-block refund path)",
 		"the accounts of the oracle are all accounts named in any change log of the history plus the fixture accounts; nobody else can be voting",
 		"block times lie in the past of the wall clock; no oracle depends on time",
 	}
-	r.Extra["bounds"] = map[string]interface{}{"alphabet": B.alpha, "max_txs_per_block": B.maxPerBlock, "max_blocks": B.maxBlocks, "max_txs_per_history": B.maxTxs, "blocks_in_menu": len(blocksUpTo(B.maxPerBlock))}
-	core.BFS(r, core.BFSConfig{Prop: prop, Run: safe, MaxDepth: B.maxBlocks, Subprocess: true, RecycleEvery: 1500, PerRunLimit: 120e9,
+	r.Extra["bounds"] = bnd
+	// stay inside the tier's wall-clock allowance on a shared machine; a cut run is reported as not exhaustive
+	if core.Thorough() {
+		if core.Opt.Budget > 17*time.Minute {
+			core.Opt.Budget = 17 * time.Minute
+		}
+	} else if core.Opt.Budget > 150*time.Second {
+		core.Opt.Budget = 150 * time.Second
+	}
+	core.BFS(r, core.BFSConfig{Prop: prop, Run: safe, MaxDepth: maxBlocks + 1, Subprocess: true, RecycleEvery: 1500, PerRunLimit: 120e9,
 		DiedFingerprint: func(hist []string, tail string) *core.Violation {
 			names := strings.Split(hist[len(hist)-1], ",")
 			t := tail
